@@ -61,13 +61,14 @@ def e1_plan(tier):
     all_shapes = lambda d: list(itertools.product((1, 2, 3), repeat=d))
     if thorough:
         # depth 3: every order-1 seed; order 2: every shape for ten format/rank variants (the other four
-        # variants only differ in rank 1 vs 2 / number of terms and are explored to depth 2)
+        # variants only differ in rank 1 vs 2 / number of terms and are explored to depth 2); order 3: every
+        # shape to depth 2 for the same ten variants, one Tucker seed to depth 3
         deep2 = [("C", 0, 0), ("C", 2, 0), ("T", 0, 0), ("T", 2, 0), ("T", 2, 1), ("A", 1, 0), ("S", 1, 0),
                  ("S", 1, 1), ("P", 1, 0), ("P", 1, 2)]
         add(all_shapes(1), 3)
         add(all_shapes(2), 3, kinds=deep2)
         add(all_shapes(2), 2, kinds=[k for k in kinds_for(2) if k not in deep2])
-        add(all_shapes(3), 2)
+        add(all_shapes(3), 2, kinds=deep2)
         add([(2, 1, 2)], 3, kinds=[("T", 2, 0)])
         add([(2, 1, 3, 2)], 2, kinds=[("C", 2, 0), ("T", 2, 1)])
     else:
@@ -210,7 +211,8 @@ def run(ctx):
         for shape in itertools.product((1, 2, 3), repeat=d) if d < 4 else [(2, 1, 3, 2)]:
             skipped_amb += K.index_exprs(shape, True)[1]
     out.part("A:index-expressions", not_generated_because_numpy_semantics_differ=skipped_amb)
-    for wi in sorted(per_walk)[:3] + sorted(per_walk)[-2:]:
+    deepw = [wi for wi in sorted(per_walk) if plan[wi][1] >= 2 and histories.get(wi)]
+    for wi in (deepw[:2] + deepw[len(deepw) // 2:len(deepw) // 2 + 1] + deepw[-2:]) or sorted(per_walk)[:3]:
         spec, depth, ext = plan[wi]
         out.sample({"part": "A", "seed_tensor": spec, "depth": depth, "extended_index_alphabet": ext,
                     "states": per_walk[wi][0], "transitions": per_walk[wi][1],
